@@ -373,6 +373,11 @@ SKELETONS = [
     "{% tablerow x in a %}{% for k in tablerowloop %}{{ k }}{% endfor %}{{ tablerowloop }}{{ tablerowloop | size }}{{ tablerowloop | first }}{% endtablerow %}",
     "{% tablerow x in a %}{% if tablerowloop == tablerowloop %}y{% endif %}{% if tablerowloop == b %}n{% endif %}{{ tablerowloop[b] }}{{ tablerowloop | sort }}{{ tablerowloop | map: 'x' }}{% endtablerow %}",
     "{% tablerow x in a cols: 2 %}{% tablerow y in b cols: c %}{{ y }}{% endtablerow %}{% for i in c %}{{ tablerowloop.col }}{{ forloop.parentloop }}{% break %}{% endfor %}{% endtablerow %}",
+    # translate blocks whose message text ends up a hostile printf format (quoted variable names
+    # that smuggle specifiers, stray and doubled percent signs)
+    "{% translate %}{{ ['x)s %s ('] }}{% endtranslate %}", "{% translate %}{{ [\"%d\"] }} {{ ['a)d %(b'] }}{% endtranslate %}",
+    "{% translate x: a %}100% {{ x }} %s %(x)d %%{% endtranslate %}", "{% translate x: a, count: b %}{{ x }} %{% plural %}{{ ['x)r %c %('] }} {{ count }}{% endtranslate %}",
+    "{% translate %}{{ ['x)5.2f'] }}{{ ['y)*d'] }}{{ ['z)c'] }}{% endtranslate %}", "{{ '%(a)s %s %d %(b)c' | t: a: a, b: b }}{{ a | t: x: b }}",
     # inheritance tags where they do not belong
     "{% include 'mx' %}{% call mm %}", "{% macro mm %}{% extends 'p' %}{% endmacro %}x{% call mm %}y",
     "{% capture z %}{% extends 'p' %}{% endcapture %}{{ z }}", "{% for i in a %}{% block bb %}{{ i }}{% endblock %}{% extends 'p' %}{% endfor %}",
@@ -462,7 +467,7 @@ def floors(tier: str) -> dict[str, int]:
         "ok": 10_000 * k,
         "shorthand_config_runs": 10_000 * k,
         "depth_limit_renders": 900,
-        "skeleton_programs_that_parse": 394, "cpu_time_probes": 6, "shopify_config_runs": 2000 * k,
+        "skeleton_programs_that_parse": 400, "cpu_time_probes": 6, "shopify_config_runs": 2000 * k,
     }
 
 
